@@ -1,6 +1,7 @@
 (* C06 — a dominated alternative is never ranked above the one that dominates it. *)
 From Coq Require Import QArith List Bool Arith.
-From SKC Require Import Base.QBool Base.QList Base.QRank Model.Dominance Model.Agg Theory.Agg.
+From Coq Require Import Reals.
+From SKC Require Import Base.QBool Base.QList Base.QRank Model.Dominance Model.Agg Theory.Agg Theory.Monotone Theory.RealClosing.
 Import ListNotations.
 
 (* RatioMOORA (signed weighted sum): strictly better score for the dominator *)
@@ -42,6 +43,58 @@ Theorem C06_duplicates_share_score : forall (f : list Q -> Q) rows i j d,
   nth i (map f rows) d = nth j (map f rows) d.
 Proof. exact (@duplicates_share_score Q). Qed.
 Print Assumptions C06_duplicates_share_score.
+
+(* TOPSIS, rational metrics (cityblock, squared euclidean, chebyshev): the dominator is at least as
+   near to the ideal and at least as far from the anti-ideal, coordinate by coordinate ... *)
+Theorem C06_dominator_is_between_dominated_and_ideal : forall objs w ra rb ideal,
+  length ra = length objs -> length rb = length objs -> length w = length objs -> length ideal = length objs ->
+  (forall x, In x w -> 0 <= x) ->
+  all_geq objs ra rb = true ->
+  (forall j, (j < length objs)%nat ->
+     better (nth j objs true) (nth j (map2 Qmult ra w) 0) (nth j ideal 0) = false /\
+     better (nth j objs true) (nth j (map2 Qmult rb w) 0) (nth j ideal 0) = false) ->
+  between (map2 Qmult ra w) (map2 Qmult rb w) ideal.
+Proof. exact dominance_gives_between. Qed.
+Print Assumptions C06_dominator_is_between_dominated_and_ideal.
+
+Theorem C06_distance_monotone : forall mt a b t, between a b t -> dist mt a t <= dist mt b t.
+Proof. exact dist_between. Qed.
+Print Assumptions C06_distance_monotone.
+
+(* ... hence its closeness is at least as high *)
+Theorem C06_topsis_monotone_rational_metrics : forall mt wa wb ideal anti sa sb,
+  between wa wb ideal -> between wb wa anti ->
+  similarity (dist mt wa ideal) (dist mt wa anti) = Some sa ->
+  similarity (dist mt wb ideal) (dist mt wb anti) = Some sb ->
+  sb <= sa.
+Proof. exact topsis_dominance_monotone. Qed.
+Print Assumptions C06_topsis_monotone_rational_metrics.
+
+(* euclidean metric: the same from the squared distances through the real square root *)
+Theorem C06_topsis_monotone_euclidean : forall (a b c d : R),
+  (0 <= a <= b)%R -> (0 <= d <= c)%R -> (0 < sqrt a + sqrt c)%R -> (0 < sqrt b + sqrt d)%R ->
+  (closeness b d <= closeness a c)%R.
+Proof. exact closeness_monotone. Qed.
+Print Assumptions C06_topsis_monotone_euclidean.
+
+(* ReferencePointMOORA (lower is better): the dominator's score is at most the dominated one's *)
+Theorem C06_refpoint_monotone : forall w rp ra rb,
+  (forall x, In x w -> 0 <= x) -> between ra rb rp -> length w = length ra ->
+  refpoint_score_row w rp ra <= refpoint_score_row w rp rb.
+Proof. exact refpoint_dominance_monotone. Qed.
+Print Assumptions C06_refpoint_monotone.
+
+(* WPM and FMF: logarithmic scores over the reals *)
+Theorem C06_wpm_monotone : forall w a b,
+  geq_all a b -> Forall (fun x => (0 < x)%R) w -> length w = length a -> (wlog w b <= wlog w a)%R.
+Proof. exact wpm_monotone. Qed.
+Print Assumptions C06_wpm_monotone.
+
+Theorem C06_fmf_monotone : forall objs w a b,
+  fmf_geq objs a b -> Forall (fun x => (0 < x)%R) w -> length w = length objs ->
+  (RealClosing.fmf objs w b <= RealClosing.fmf objs w a)%R.
+Proof. exact fmf_monotone. Qed.
+Print Assumptions C06_fmf_monotone.
 
 Example C06_example :
   let objs := [true; false] in
